@@ -1,8 +1,14 @@
-(** Tiers: the read path consults groups of sources ("tiers") in order — the
-    active memtable, each sealed memtable, all of L0, then each level (ingest
-    buffer + main tables).  Inside a tier it keeps the greatest version <= v
-    (first source wins ties); the first tier with an answer wins.  The
-    ordering invariant says when that procedure returns the latest write. *)
+(** The read path scans every source in order — the active memtable, each
+    sealed memtable (newest first), the L0 tables (newest first), then for each
+    level its ingest buffer and main tables — and keeps the greatest version
+    <= v; the first scanned source wins ties ([tier_best] over [scan_srcs]).
+    The invariant [scan_inv] says when that returns the latest write: copies
+    of one internal key appear most-recent-first in scan order.  No version
+    order between sources is needed.
+
+    The grouping of the sources into "tiers" ([tiers_of], [tget], [tier_inv])
+    describes the read path before the repair of the first-hit rule (the first
+    tier with an answer won); [tier_inv] is stronger than [scan_inv]. *)
 From Coq Require Import List NArith Bool.
 From NoKV Require Import Base.Bytes Model.Lsm Spec.MvccSpec Proofs.LsmOrder.
 Import ListNotations.
@@ -25,6 +31,9 @@ Definition tiers_of (s : state) : list (list (list rec)) :=
 
 Definition all_recs (tiers : list (list (list rec))) : list rec := concat (concat tiers).
 
+(** Every source of the state in scan order. *)
+Definition scan_srcs (s : state) : list (list rec) := concat (tiers_of s).
+
 (** [geq x y]: [x] is at least as recent as [y] (version, then acknowledgement order). *)
 Definition geq (x y : rec) : Prop := r_ver y < r_ver x \/ (r_ver x = r_ver y /\ r_seq y <= r_seq x).
 
@@ -42,6 +51,11 @@ Record tier_inv (tiers : list (list (list rec))) : Prop := {
   ti_pos : forall x, In x (all_recs tiers) -> 0 < r_ver x;
   ti_within : Forall within_ok tiers;
   ti_cross : cross_ok tiers }.
+
+(** The invariant of the scan: sorted sources, positive versions, and equal
+    internal keys most-recent-first in scan order. *)
+Definition scan_inv (srcs : list (list rec)) : Prop :=
+  Forall sorted srcs /\ (forall x, In x (concat srcs) -> 0 < r_ver x) /\ within_ok srcs.
 
 (** [o] is the latest write to [k] at or below [v] among [ws]. *)
 Definition is_latest (ws : list rec) (k : bytes) (v : N) (o : option rec) : Prop :=
